@@ -97,7 +97,6 @@ Fixpoint name_of (t : rty) : outcome tsty :=
 Fixpoint visit_generics (t : rty) : list rty :=
   match t with
   | RLeaf _ => []
-  | RArray O _ => []                       (* the text of a zero-length array mentions nothing *)
   | ROption u | RVec u | RArray _ u | RWrap u | RRange u => visit_generics u ++ [u]
   | RTuple ts => flat_map (fun u => u :: visit_generics u) ts
   | RMap k v | RResult k v => visit_generics k ++ [k] ++ visit_generics v ++ [v]
@@ -176,7 +175,6 @@ Fixpoint lib_flat (t : rty) : outcome tsty :=
 Fixpoint lib_vdeps (t : rty) : outcome (list rty) :=
   match t with
   | RLeaf _ => Ok []
-  | RArray O _ => Ok []
   | ROption u | RVec u | RArray _ u | RWrap u | RRange u => lib_vdeps u
   | RTuple _ => Ok []                      (* impl_tuples! has no visit_dependencies *)
   | RMap k v | RResult k v => bind (lib_vdeps k) (fun a => bind (lib_vdeps v) (fun b => Ok (a ++ b)))
